@@ -223,7 +223,7 @@ func (in *Interp) resetPath(prefix []decision) {
 	in.fnObjs = map[*ssa.Function]*Obj{}
 	in.typeObjs = map[string]*Obj{}
 	in.eventBudget = 0
-	in.B.ResetFresh()
+	// fresh variable names stay unique per worker: terms (and their intervals) are shared across paths by hash-consing
 	in.nextObj = 0
 	in.mapIDs = 0
 	in.localFuncs = map[string]bool{}
